@@ -25,6 +25,14 @@ def Node.name : Node → String
   | .cls c => c.name
   | .fn f => f.name
 
+def Node.id : Node → String
+  | .cls c => c.id
+  | .fn f => f.id
+
+/-- order of the re-exported elements: `elements.sort(key=lambda x: (x.name, x.id))` -/
+def nodeLe (a b : Node) : Bool :=
+  if a.name == b.name then strLe a.id b.id else strLe a.name b.name
+
 def Node.rename (n : Node) (name : String) : Node :=
   match n with
   | .cls c => .cls { c with name := name }
@@ -853,7 +861,7 @@ def createReexportModules (env : Env) : List (String × List Node) → G (List S
     modify fun s => { s with creatingReexport := false }
     setModuleId moduleId
     modify fun s => { s with creatingReexport := true }
-    let sorted := sortBy (fun (a b : Node) => strLe a.name b.name) elements
+    let sorted := sortBy nodeLe elements
     let ds ← createReexportElements env moduleId sorted
     let more ← createReexportModules env rest
     pure (ds ++ more)
